@@ -199,10 +199,16 @@ type smsOut struct {
 	be   *Backend
 	mu   sync.Mutex
 	msgs []SMS
+	// handed to the gateway, which reported a failure (fault injection): not delivered as far as the library
+	// knows, but still a code that was generated for THAT number
+	tried []SMS
 }
 
 func (s *smsOut) Send(_ context.Context, num, text string) error {
 	if err := s.be.enter("sendsms"); err != nil {
+		s.mu.Lock()
+		s.tried = append(s.tried, SMS{num, text})
+		s.mu.Unlock()
 		return err
 	}
 	s.mu.Lock()
